@@ -1,7 +1,7 @@
 # C20 Layout object properties round-trip and do not interfere
 ASSUMPTIONS = ["source values come from a contract-stub convertable (answers exactly one held type)", "NaN sources excluded (NaN != NaN)",
                "kinds covered: line (8 scalar properties); colour text parse/print; other kinds listed as outside in DESIGN.md"]
-U = ["mptplot/layout/line_property.c", "mptplot/layout/lattr_set.c", "mptplot/layout/color_set.c", "mptplot/layout/color_parse.c",
+U = ["mptplot/layout/line_property.c", "mptplot/layout/lattr_set.c", "mptplot/layout/color_set.c", "mptplot/layout/color_parse.c", "mptplot/layout/color_html.c", "mptcore/convert/convert_int.c",
      "mptcore/object/property_match.c", "mptcore/types/value_compare.c", "mptcore/types/type_traits.c",
      "mptcore/misc/identifier.c", "mptcore/array/array_traits.c", "mptcore/meta/meta_reference_traits.c", "mptcore/event/command_traits.c",
      "mptcore/array/array_clone.c"]
